@@ -50,7 +50,13 @@ static bool check_z(Ctx& ctx, const Case& c, const Paths64& sol, const ZBook& zb
       } else {
         bool ok = false;
         if (in_here != zb.ids_at.end()) for (int64_t id : in_here->second) if (id == pt.z) ok = true;
-        if (!ok) { ctx.violation("C15.z_unaccounted", { what, "cb_unique", in_here == zb.ids_at.end() ? "not_at_input_vertex" : "at_input_vertex_wrong_id" }, c,
+        std::string cls = "other_value";
+        if (!ok && pt.z == 0 && in_here == zb.ids_at.end()) {
+          // classifier: was the callback invoked at this very point (its id then went to another output vertex), or never?
+          bool called_here = false; for (auto& e : zb.issued) if (e.second == at) { called_here = true; break; }
+          cls = called_here ? "z0_new_vertex_twin_of_a_vertex_that_got_the_callback_id" : "z0_new_vertex_callback_never_called_here";
+        }
+        if (!ok) { ctx.violation("C15.z_unaccounted", { what, "cb_unique", in_here == zb.ids_at.end() ? "not_at_input_vertex" : "at_input_vertex_wrong_id", cls }, c,
           "vertex (" + std::to_string(pt.x) + "," + std::to_string(pt.y) + ") carries z=" + std::to_string(pt.z) + " which is neither a value given at that location nor assigned by the callback"); return false; }
         ctx.count("z_vertices_from_input");
       }
